@@ -576,7 +576,9 @@ func vpInvLog(k *vpConds, l *raftLog, term uint64) {
 		// compaction never passes the applied index, snapshot pending or not
 		k.add(l.applied >= s)
 		if ms.snapshot != nil {
-			k.add(ms.snapshot.GetMetadata().GetIndex() <= l.committed)
+			// the pending snapshot is newer than the one in storage (restore()
+			// only accepts a snapshot above the commit index)
+			k.add(ms.snapshot.GetMetadata().GetIndex() < si)
 			k.add(ms.snapshot.GetMetadata().GetIndex() >= s)
 		}
 		prevU = st
@@ -715,7 +717,14 @@ func vpInvTally(k *vpConds, r *raft) {
 		won = vpAnd(won, yes >= q)
 		lost = vpOr(lost, yes+missing < q)
 	}
-	k.add(!won)
+	// a candidate (not a pre-candidate) may hold a winning tally while it waits
+	// for its own vote to become durable
+	_, selfVoted := r.trk.Votes[r.id]
+	_, selfVoter := r.trk.Voters.IDs()[r.id]
+	waiting := r.state == StateCandidate && selfVoter && !selfVoted
+	if !waiting {
+		k.add(!won)
+	}
 	k.add(!lost)
 }
 
